@@ -15,7 +15,7 @@ def run_unit(u, repo, outdir, prop, tier):
     spec = tomllib.load(open(os.path.join(VERIF, "contracts", "scan", u["spec"] + ".toml"), "rb"))
     os.makedirs(outdir, exist_ok=True)
     job = {"repo": repo, "mode": "scan", "calls": spec.get("calls", []), "methods": spec.get("methods", []),
-           "fields": spec.get("fields", []), "macros": spec.get("macros", [])}
+           "fields": spec.get("fields", []), "macros": spec.get("macros", []), "idents": spec.get("idents", [])}
     jp = os.path.join(outdir, u["spec"] + ".scan.json")
     json.dump(job, open(jp, "w"))
     vx = vxgen.VX if os.path.exists(vxgen.VX) else os.path.join(VERIF, "vx", "target", "debug", "vx")
